@@ -108,6 +108,15 @@ impl NetStore {
     fn release(&self) {
         self.0.released.send_replace(true);
     }
+    /// The node's store gains its next block (as if its consensus had finalized it).
+    fn append(&self, block: validator::Block) {
+        let mut b = self.0.blocks.lock().unwrap();
+        let last = Last::from(&block);
+        b.insert(block.number().0, block);
+        let first = *b.keys().next().unwrap();
+        drop(b);
+        self.0.persisted.send_replace(BlockStoreState { first: BlockNumber(first), last: Some(last) });
+    }
 }
 
 #[async_trait::async_trait]
@@ -220,6 +229,16 @@ fn make_cfg(rng: &mut impl Rng, validator_key: Option<validator::SecretKey>) -> 
 
 fn t(s: i64) -> time::Utc {
     time::UNIX_EPOCH + time::Duration::seconds(s)
+}
+
+async fn wait_for_ms(ms: u64, mut f: impl FnMut() -> bool) -> bool {
+    for _ in 0..ms / 5 {
+        if f() {
+            return true;
+        }
+        tokio::time::sleep(Duration::from_millis(5)).await;
+    }
+    f()
 }
 
 async fn wait_for(secs: u64, mut f: impl FnMut() -> bool) -> bool {
@@ -896,6 +915,127 @@ pub fn run_rates(seed: u64) -> RateOutcome {
     out
 }
 
+/// The push RPCs: a node configured with rate (burst 2, refresh 1 h) for one push kind - and fast rates
+/// for everything else - can serve at most burst + 1 calls of that kind within the seconds this scenario
+/// lasts. The peer (no limits of its own) has news eight times, 50 ms apart:
+///  * kind 0, push_block_store_state: the peer's store gains a block each time, the next one only after
+///    the node has asked for the previous one (or 300 ms): a block requested before its successor exists
+///    proves a served announcement distinct from all the others counted;
+///  * kind 1, push_validator_addrs: the peer's address book gains a newer announcement each time; the
+///    node counts the calls it serves.
+/// Returns (what was observed, allowed).
+pub fn run_push_rate(seed: u64, kind: u32) -> Result<(u64, u64, String), String> {
+    let rt = tokio::runtime::Builder::new_multi_thread().worker_threads(4).enable_all().build().unwrap();
+    let burst = 2usize;
+    let r = rt.block_on(async {
+        let chn = c08::chain(seed, 8);
+        let canon: Vec<validator::Block> = chn.blocks.iter().cloned().map(validator::Block::FinalV2).collect();
+        let rng = &mut util::rng(seed, 0x9a7e ^ kind as u64);
+        let root = ctx::test_root(&ctx::RealClock);
+        let ctx = &root;
+        let genesis = &chn.w.c.genesis;
+        let epoch = chn.w.c.epoch;
+        let fast = limiter::Rate { burst: 100, refresh: time::Duration::ZERO };
+        let slow = limiter::Rate { burst, refresh: time::Duration::seconds(3600) };
+        let all_fast = RpcConfig { get_block_rate: fast, push_validator_addrs_rate: fast, push_block_store_state_rate: fast, push_tx_rate: fast, consensus_rate: fast, get_block_timeout: Some(time::Duration::seconds(60)) };
+        let n_store = NetStore::new(genesis, &[], Lie::Honest, u64::MAX, None);
+        let (n_mgr, n_runner) = EngineManager::new(ctx, Box::new(n_store.clone()), time::Duration::seconds(1)).await.map_err(|e| format!("{e:?}"))?;
+        let mut cfg_n = make_cfg(rng, None);
+        cfg_n.rpc = all_fast.clone();
+        if kind == 0 {
+            cfg_n.rpc.push_block_store_state_rate = slow;
+        } else {
+            cfg_n.rpc.push_validator_addrs_rate = slow;
+        }
+        let n_key = cfg_n.gossip.key.public();
+        let net = nv::VGossip::new(cfg_n, n_mgr, Some(epoch));
+        let listener = TcpListener::bind("127.0.0.1:0").await.map_err(|e| e.to_string())?;
+        let addr = listener.local_addr().unwrap();
+        let p_store = NetStore::new(genesis, &[], Lie::Honest, u64::MAX, None);
+        let (p_mgr, p_runner) = EngineManager::new(ctx, Box::new(p_store.clone()), time::Duration::seconds(1)).await.map_err(|e| format!("{e:?}"))?;
+        let mut cfg_p = make_cfg(rng, None);
+        cfg_p.rpc = all_fast;
+        cfg_p.gossip.static_outbound.insert(n_key.clone(), zksync_concurrency::net::Host(addr.to_string()));
+        let p_net = nv::VGossip::new(cfg_p, p_mgr, Some(epoch));
+        let (net_ref, p_store_ref, p_net_ref, canon_ref, chn_ref) = (&net, &p_store, &p_net, &canon, &chn);
+        let res: Result<(u64, u64, String), ctx::Error> = scope::run!(ctx, |ctx, s| async move {
+            for r in [n_runner, p_runner] {
+                s.spawn_bg(async move {
+                    let _ = r.run(ctx).await;
+                    Ok(())
+                });
+            }
+            {
+                let net = net_ref.clone();
+                let mut listener = listener;
+                s.spawn_bg(async move {
+                    while let Ok(tcp) = nv::accept_tcp(ctx, &mut listener).await {
+                        let net = net.clone();
+                        s.spawn_bg(async move {
+                            let _ = net.handle_inbound(ctx, tcp).await;
+                            Ok(())
+                        });
+                    }
+                    Ok(())
+                });
+            }
+            {
+                let net = net_ref.clone();
+                s.spawn_bg(async move {
+                    net.run_block_fetcher(ctx).await;
+                    Ok(())
+                });
+            }
+            {
+                let p = p_net_ref.clone();
+                s.spawn_bg(async move {
+                    let _ = p.dial(ctx, &n_key, addr).await;
+                    Ok(())
+                });
+            }
+            // the connection must be up before the news start (required outcome)
+            if !wait_for(60, || !net_ref.inbound_keys().is_empty()).await {
+                return Err(anyhow::format_err!("machinery: the peer did not connect within 60 s").into());
+            }
+            tokio::time::sleep(Duration::from_millis(200)).await;
+            let calls_before = net_ref.push_validator_addrs_calls() as u64;
+            let mut separated = 0u64;
+            let mut seen_log = vec![];
+            for k in 0..8usize {
+                if kind == 0 {
+                    p_store_ref.append(canon_ref[k].clone());
+                    // Block k+1 is appended only after the node has asked for block k (or 300 ms passed).
+                    // If the request for k is seen BEFORE k+1 exists, the announcement that taught the
+                    // node about k was sent before k+1 existed, so it is a different call from the one
+                    // that will teach it about k+1: the blocks counted here prove pairwise distinct served
+                    // calls, whatever the timing.
+                    let seen = wait_for_ms(300, || p_store_ref.reads().contains(&(k as u64))).await;
+                    if seen {
+                        separated += 1;
+                    }
+                    seen_log.push(seen);
+                } else {
+                    let a = Arc::new(chn_ref.w.c.keys[0].sign_msg(validator::NetAddress { addr: std::net::SocketAddr::from(([10, 0, 0, 1], 1000 + k as u16)), version: k as u64, timestamp: t(100) }));
+                    p_net_ref.addrs_update(&chn_ref.w.c.schedule, &[a]).await.map_err(|e| anyhow::format_err!("machinery: addrs_update: {e}"))?;
+                    tokio::time::sleep(Duration::from_millis(50)).await;
+                }
+            }
+            if kind == 0 {
+                // the initial (empty) announcement + `burst` more at the very most + one for slack
+                Ok((separated, burst as u64 + 1, format!("for each block the peer stored, was it requested before the next block existed: {seen_log:?}")))
+            } else {
+                tokio::time::sleep(Duration::from_millis(1000)).await;
+                let calls = net_ref.push_validator_addrs_calls() as u64 - calls_before;
+                Ok((calls, burst as u64 + 1, format!("push_validator_addrs calls served after the connection was up: {calls}")))
+            }
+        })
+        .await;
+        res.map_err(|e| format!("{e:?}"))
+    });
+    drop(rt);
+    r
+}
+
 pub fn report_rates(rep: &mut crate::core::Report, seed: u64) -> serde_json::Value {
     // real time: a violation of the window bound is reported only if three runs in a row show one
     // (a changed rate shows in every run; a scheduling hiccup on a loaded machine does not repeat)
@@ -917,7 +1057,33 @@ pub fn report_rates(rep: &mut crate::core::Report, seed: u64) -> serde_json::Val
     if o.viol.is_empty() && o.machinery.is_empty() && o.requests_served < 8 {
         rep.machinery_errors.push(format!("vacuous: the rate scenario saw only {} get_block requests", o.requests_served));
     }
-    serde_json::json!({"get_block_requests_served": o.requests_served, "rule": "a real gossip network serving 8 blocks with get_block rate (2, 400 ms) and every other RPC kind at (100, 0) to a peer without limits, over loop-back TCP in real time: handler starts respect b + T/r + 1 (+1 for jitter); one run"})
+    let mut push_obs = vec![];
+    for (kind, name) in [(0u32, "push_block_store_state"), (1, "push_validator_addrs")] {
+        // forbidden outcome in real time: reported only if three runs in a row show it
+        let mut last: Option<String> = None;
+        for _ in 0..3 {
+            match run_push_rate(seed, kind) {
+                Err(e) => {
+                    rep.machinery_errors.push(format!("push-rate scenario {name}: {e}"));
+                    last = None;
+                    break;
+                }
+                Ok((got, allowed, what)) => {
+                    push_obs.push(serde_json::json!({"rpc": name, "observed": got, "allowed": allowed}));
+                    if got > allowed {
+                        last = Some(format!("[gossip:{name}_rate] a node configured with {name} rate burst 2 / refresh 1 h served more than {allowed} calls of that kind on one connection within three seconds: {what} (every 'true' proves a distinct served call)"));
+                    } else {
+                        last = None;
+                        break;
+                    }
+                }
+            }
+        }
+        if let Some(w) = last {
+            rep.violations.push(crate::core::Violation { key: format!("gossipnet:rpc_rate_not_enforced:{name}"), what: w, replay: serde_json::json!({"harness": "gossipnet", "config": {"scenario": "rates"}, "deviations": []}) });
+        }
+    }
+    serde_json::json!({"push_rpc_observations": push_obs, "get_block_requests_served": o.requests_served, "rule": "a real gossip network serving 8 blocks with get_block rate (2, 400 ms) and every other RPC kind at (100, 0) to a peer without limits, over loop-back TCP in real time: handler starts respect b + T/r + 1 (+1 for jitter); one run"})
 }
 
 // ---------------------------------------------------------------------------------------------
